@@ -130,6 +130,107 @@ def stdout_fault_plans(ctx, d):
     return plans
 
 
+def secondary_input_plans(ctx, d):
+    """Faults in SECONDARY inputs: the left file of join (-f), in every join mode (unsorted default, -s sorted/doubly
+    streaming, with and without --ul/--ur/--np, --prepipe/--gzin on the left), the fault at any position of the left file:
+    missing / unreadable, malformed row early, in the middle, or far beyond the last key the right-hand input pairs with;
+    right-hand input with many, few or no records.  Expected: non-zero exit and a diagnostic."""
+    rng = ctx.rng
+    plans = []
+    nleft = 40
+
+    def left_csv(bad_at):
+        rows = ["id,v"]
+        for i in range(1, nleft + 1):
+            rows.append("%02d,%d" % (i, 7 * i) + (",extra,fields" if i == bad_at else ""))
+        return ("\n".join(rows) + "\n").encode()
+    rights = {"few": b"id,w\n" + b"".join(b"%02d,%d\n" % (i, i) for i in range(1, 4)),
+              "many": b"id,w\n" + b"".join(b"%02d,%d\n" % (i, i) for i in range(1, nleft + 1)),
+              "header-only": b"id,w\n", "empty": b""}
+    modes = [("unsorted", []), ("sorted", ["-s"]), ("sorted-ul", ["-s", "--ul"]), ("sorted-np-ur", ["-s", "--np", "--ur"]), ("unsorted-np-ul", ["--np", "--ul"])]
+    k = 0
+    for bad_at in (2, nleft // 2, nleft - 1, nleft):
+        f = os.path.join(d, "left.bad%d.csv" % bad_at)
+        open(f, "wb").write(left_csv(bad_at))
+        for mname, mflags in modes:
+            for rname, rdata in rights.items():
+                for b in ("1", "500"):
+                    k += 1
+                    plans.append((f"join-left-malformed@{bad_at}:{mname}:right-{rname}/b{b}", "secondary-input:join-left-malformed",
+                                  ["--icsv", "--ojsonl", "--records-per-batch", b, "join"] + mflags + ["-j", "id", "-f", f], rdata, "fail"))
+    for mname, mflags in modes:
+        for rname, rdata in rights.items():
+            plans.append((f"join-left-missing:{mname}:right-{rname}", "secondary-input:join-left-missing",
+                          ["--icsv", "--ojsonl", "join"] + mflags + ["-j", "id", "-f", os.path.join(d, "no-such-left.csv")], rdata, "fail"))
+            plans.append((f"join-left-is-directory:{mname}:right-{rname}", "secondary-input:join-left-unreadable",
+                          ["--icsv", "--ojsonl", "join"] + mflags + ["-j", "id", "-f", d], rdata, "fail"))
+    gz = os.path.join(d, "left.trunc.csv.gz")
+    open(gz, "wb").write(gzip.compress(left_csv(None) * 50)[:-40])
+    for mname, mflags in modes:
+        plans.append((f"join-left-truncated-gz:{mname}", "secondary-input:join-left-truncated-gz",
+                      ["--icsv", "--ojsonl", "join"] + mflags + ["--prepipe", "gunzip <", "-j", "id", "-f", gz], rights["few"], "fail"))
+    if ctx.tier == "quick":
+        core = [p for p in plans if ":sorted:" in p[0] and ("right-few" in p[0] or "right-empty" in p[0] or "gz" in p[0])]
+        rest = [p for p in plans if p not in core]
+        rng.shuffle(rest)
+        plans = core[:14] + rest[:10]
+    return plans
+
+
+def fanout_oracle(ctx, d):
+    """exit 0 => every record reached its destination, for fan-out BEYOND the handler-cache capacity (more than 256
+    files open per manager: handlers are suspended, evicted and re-opened): split -g and put/tee redirects on keys that
+    come back after eviction, for output formats with and without closing text / retained records.  Each destination
+    file is read back: the records of all files together must be exactly the input records, and every file must be
+    complete in its format (JSON parses; CSV has its header)."""
+    nkeys = 300 if ctx.tier == "quick" else 700
+    inp = "".join("k=%d,i=%d\n" % (k, p * nkeys + k) for p in range(2) for k in range(1, nkeys + 1)).encode()
+    total = 2 * nkeys
+    cases = [("split-json", ["--ojson", "split", "-g", "k", "--prefix", "{dir}/s"], "json"),
+             ("split-csv", ["--ocsv", "split", "-g", "k", "--prefix", "{dir}/s"], "csv"),
+             ("tee-redirect-json", ["--ojson", "put", "-q", 'tee > "{dir}/t".$k.".json", $*'], "json"),
+             ("print-redirect", ["put", "-q", 'print > "{dir}/p".$k.".txt", $i'], "lines"),
+             ("split-pprint", ["--opprint", "split", "-g", "k", "--prefix", "{dir}/s"], "pprint")]
+    if ctx.tier == "quick":
+        cases = cases[:2] + [ctx.rng.choice(cases[2:])]
+    for name, argv, fmt in cases:
+        dd = os.path.join(d, "fan." + name)
+        os.makedirs(dd, exist_ok=True)
+        argv = [a.replace("{dir}", dd) for a in argv]
+        st, out, err = mlr_run(ctx, argv, inp, timeout=120)
+        if st == "hang":
+            st, out, err = mlr_run(ctx, argv, inp, timeout=600)
+        ctx.count(("fanout", name)); ctx.dist("fanout")
+        if st != 0:
+            if st == "hang" or classify_run(st, err) == "panic" or not err.strip():
+                ctx.violation({"class": "fanout:" + name, "what": "fan-out run hangs, panics or fails silently", "status": st, "argv": argv, "stderr_tail": err[-300:].decode("latin1")})
+            continue    # a diagnosed failure (e.g. too many open files) is not demanded to succeed
+        got, incomplete = 0, []
+        for fn in sorted(os.listdir(dd)):
+            data = open(os.path.join(dd, fn), "rb").read()
+            if fmt == "json":
+                try:
+                    got += len(json.loads(data.decode()))
+                except Exception:
+                    incomplete.append(fn)
+            elif fmt == "csv":
+                lines = data.decode().splitlines()
+                if not lines or lines[0] != "k,i":
+                    incomplete.append(fn)
+                got += max(len(lines) - 1, 0)
+            elif fmt == "pprint":
+                lines = [l for l in data.decode().splitlines() if l.strip()]
+                got += max(len(lines) - 1, 0)
+            else:
+                got += len(data.decode().splitlines())
+        if got != total or incomplete:
+            ctx.violation({"class": "fanout-lost-output:" + name, "what": "exit 0 but the destination files hold %d of %d records; incomplete files: %s" % (got, total, incomplete[:5]),
+                           "input": "k=1..%d twice (keys come back after their handler was evicted), i = running number" % nkeys, "argv": argv,
+                           "observed": {"status": st, "records_in_files": got, "files": len(os.listdir(dd)), "incomplete": incomplete[:10]},
+                           "expected": "every input record in exactly one destination file, every file complete in its format",
+                           "how": "mlr %s  on %d DKVP records k=<1..%d>,i=<n> (two passes over the keys)" % (" ".join(argv), total, nkeys)})
+
+
 def fault_plans(ctx, d):
     """yield (name, class, argv, stdin, expect) ; expect = 'fail' (non-zero + diagnostic) or ('ok', nlines)"""
     N = 40
@@ -226,6 +327,25 @@ def run(ctx):
                                "VerifPoint hooks + trace parser"]
     ctx.assumptions = ["OS-level faults are injected from outside (files, /dev/full); stdout-to-/dev/full is exercised through redirected outputs only",
                        "flush/close errors of redirected outputs at end of stream are modelled as verb failures"]
+    # the table of process-exit sites, regenerated from the tree under check; the theorems of C17/ExitSites.v are computed over it
+    from checks import c17_exitsites
+    ex_sites, rq_sites, us_sites = c17_exitsites.scan(str(REPO))
+    write_if_changed(GEN / "Gen_ExitSites.v", c17_exitsites.render(ex_sites, rq_sites, us_sites))
+    ctx.cov["exit_sites"] = {"os_exit": len(ex_sites), "exit_request": len(rq_sites), "usage_printed": len(us_sites)}
+    silent = [r for r in ex_sites + rq_sites if isinstance(r["code"], int) and r["code"] != 0 and not r["stderr_before"] and r["guard"] != "GUsagePrinted"]
+    silent += [r for r in us_sites if not r["stderr_before"]]
+    for r in silent:
+        # a site that ends the process with a non-zero status without having written to stderr
+        rep = {"class": "exit-site-without-stderr-diagnostic:%s:%s" % (r["file"], r["func"]), "site": r,
+               "what": "non-zero exit (or exit sentinel) with no write to os.Stderr before it in the same block"}
+        if r["file"].endswith("put_or_filter.go") and r["func"] == "NewTransformerPut":
+            st, out, err = mlr_run(ctx, ["-n", "put", "-W", "$y = x"], b"", timeout=60)
+            rep.update({"input": "mlr -n put -W '$y = x'", "observed": {"status": st, "stdout": out.decode("latin1"), "stderr": err.decode("latin1")},
+                        "expected": "exit 1 with the reason for exiting on stderr and nothing on stdout"})
+            if st == 1 and b"Exiting due to warnings" in out:
+                ctx.violation(rep)
+                continue
+        ctx.violation(rep, found_input=False)
     forbidden_gate(ctx, ["C04", "C17"])
     ok, why = check_props(ctx, "C17/Props.v", ["C04/Errors.vo", "C04/Harness.vo"])
     d = tempfile.mkdtemp(prefix="c17.", dir=str(CACHE))
@@ -239,7 +359,7 @@ def run(ctx):
             pos = [p for p in plans if "@" in p[0]]
             ctx.rng.shuffle(pos)
             plans = keep + pos[:260]
-        plans = [tuple(p) + (None,) for p in plans] + stdout_fault_plans(ctx, d)
+        plans = [tuple(p) + (None,) for p in plans] + [tuple(p) + (None,) for p in secondary_input_plans(ctx, d)] + stdout_fault_plans(ctx, d)
         only = os.environ.get("VERIF_C17_ONLY")
         if only:   # debugging aid: run the plans whose name contains the given substring
             plans = [p for p in plans if only in p[0]]
@@ -315,6 +435,10 @@ def run(ctx):
                 t = trace_term(tr)
                 if t is not None:
                     traces.append(t[0]); tmeta.append((name, st))
+        nv = len(ctx.violations)
+        fanout_oracle(ctx, d)
+        if len(ctx.violations) > nv:
+            found = True
     finally:
         shutil.rmtree(d, ignore_errors=True)
     if not ok and not found:
